@@ -3,7 +3,7 @@ import json, os
 import numpy as np
 import impl, cases, proto
 from gen import rng_for
-from .common import tolist, confusable, fresh, bits_equal, history_differs
+from .common import new_options, tolist, confusable, fresh, bits_equal, history_differs
 
 LEAN = "PystogVerif.Props.C16"
 NCORR = {"quick": 2, "thorough": 20}
@@ -150,6 +150,44 @@ def evaluate(case):
             elif rf[0] != rm[0]:
                 fails.append(f"{entry}: integer-typed ordinates with float uncertainties give {rm[0]} where float ordinates give {rf[0]}")
                 return fails
+    # options the pinned tree does not know (none on the unchanged tree): a call that switches one on — on data holding an infinite bin, so that
+    # it may fail half-way — leaves nothing behind for the next, ordinary call (same arguments, same process, NumPy's own settings included)
+    if new_options() and entry.split(".")[0] in ("Transformer", "FourierFilter", "Converter"):
+        import warnings
+        fnobj = getattr(impl.obj(entry.split(".")[0]), entry.split(".")[1])
+
+        def direct(a):
+            with warnings.catch_warnings():
+                warnings.simplefilter("ignore")
+                try:
+                    r = fnobj(*a, **kw)
+                    return ("ok", [None if c is None else np.array(c, dtype=float, copy=True) for c in (r if isinstance(r, tuple) else (r,))])
+                except Exception as ex:  # noqa: BLE001
+                    return ("err", type(ex).__name__)
+        poisoned = _mk(case)
+        if len(poisoned) > 1 and poisoned[1] is not None and not np.isscalar(poisoned[1]) and len(poisoned[1]) >= 2:
+            poisoned[1] = np.array(poisoned[1], dtype=float)
+            poisoned[1][len(poisoned[1]) // 2] = np.inf
+        err0 = np.geterr()
+        before_d = direct([None if a is None else (a if np.isscalar(a) else a.copy()) for a in poisoned])
+        for opt in new_options():
+            for val in (True, 1):
+                with warnings.catch_warnings():
+                    warnings.simplefilter("ignore")
+                    try:
+                        fnobj(*[None if a is None else (a if np.isscalar(a) else a.copy()) for a in poisoned], **dict(kw, **{opt: val}))
+                    except Exception:  # noqa: BLE001
+                        pass
+        after_d = direct([None if a is None else (a if np.isscalar(a) else a.copy()) for a in poisoned])
+        err1 = np.geterr()
+        np.seterr(**err0)
+        same_d = before_d[0] == after_d[0] and (before_d[0] == "err" and before_d[1] == after_d[1] or before_d[0] == "ok" and all(
+            (x is None and y is None) or (x is not None and y is not None and np.array_equal(x, y, equal_nan=True)) for x, y in zip(before_d[1], after_d[1])))
+        if not same_d or err1 != err0:
+            fails.append(f"{entry}: after calls that switched on the option(s) {new_options()} on data with an infinite bin (they may raise), the same ordinary call "
+                         f"gives {after_d[0] if after_d[0] == 'ok' else after_d} where it gave {before_d[0] if before_d[0] == 'ok' else before_d} before; "
+                         f"numpy error state {err1 if err1 != err0 else 'unchanged'}")
+            return fails
     # what a call returned belongs to the caller: a later call on the same object, with other data of the same shapes, must not change it
     if base[0] == "ok":
         held = [None if a is None else a for a in base[1]]
